@@ -112,7 +112,13 @@ func VerifH_C13_rebase() {
 	vapi.Assert("build.block", c.m.AddBlocks([]types.Block{b0}) == nil)
 	x := newV2(w.tag(), nil, w.parent())
 	p := newV2(w.tag(), nil, w.parent())
-	ch := newV2(w.tag(), &p)
+	// the child spends P's output, alone or after a long-confirmed input
+	var ch types.V2Transaction
+	if vapi.Bool("child-has-a-confirmed-input-first") {
+		ch = newV2(w.tag(), &p, w.parent())
+	} else {
+		ch = newV2(w.tag(), &p)
+	}
 	confirm := vapi.Bool("confirm-parent")
 	var b1 types.Block
 	if confirm {
@@ -333,6 +339,18 @@ func VerifH_C13_rebase_staggered() {
 		where = append(where, vapi.Int("confirmed-in", 0, 3))
 	}
 	w.next = 25
+	// a fourth member, never confirmed, that references every other kind of
+	// element a v2 transaction can carry: a siafund input, a revised contract
+	// and a resolved contract (all proofs must be moved, not only siacoin ones)
+	rich := newV2(24, nil, 17)
+	mkSE := func(leaf uint64) types.StateElement {
+		return types.StateElement{LeafIndex: leaf, MerkleProof: []types.Hash256{{byte(leaf)}}}
+	}
+	rich.SiafundInputs = []types.V2SiafundInput{{Parent: types.SiafundElement{ID: types.SiafundOutputID{0x5f}, StateElement: mkSE(21)}}}
+	rich.FileContractRevisions = []types.V2FileContractRevision{{Parent: types.V2FileContractElement{ID: types.FileContractID{0xc1}, StateElement: mkSE(25)}}}
+	rich.FileContractResolutions = []types.V2FileContractResolution{{Parent: types.V2FileContractElement{ID: types.FileContractID{0xc2}, StateElement: mkSE(29)}, Resolution: &types.V2FileContractExpiration{}}}
+	set = append(set, rich)
+	where = append(where, 0)
 	// one transaction per block at most: the abstract one-hash proofs do not
 	// survive the block codec's multiproof compression of several inputs
 	for a := 0; a < 3; a++ {
@@ -371,10 +389,21 @@ func VerifH_C13_rebase_staggered() {
 		}
 	}
 	vapi.Assert("staggered.exactly-the-unconfirmed-survive-in-order", sameIDs(v2ids(out), want))
+	atTarget := func(se types.StateElement) bool {
+		return len(se.MerkleProof) == 1 && se.MerkleProof[0][0] == byte(blocks[to].Nonce) && se.MerkleProof[0][2] == 0
+	}
 	for i := range out {
 		for _, sci := range out[i].SiacoinInputs {
-			se := sci.Parent.StateElement
-			vapi.Assert("staggered.proof-at-target", len(se.MerkleProof) == 1 && se.MerkleProof[0][0] == byte(blocks[to].Nonce) && se.MerkleProof[0][2] == 0)
+			vapi.Assert("staggered.proof-at-target", atTarget(sci.Parent.StateElement))
+		}
+		for _, sfi := range out[i].SiafundInputs {
+			vapi.Assert("staggered.siafund-proof-at-target", atTarget(sfi.Parent.StateElement))
+		}
+		for _, rev := range out[i].FileContractRevisions {
+			vapi.Assert("staggered.revision-parent-proof-at-target", atTarget(rev.Parent.StateElement))
+		}
+		for _, res := range out[i].FileContractResolutions {
+			vapi.Assert("staggered.resolution-parent-proof-at-target", atTarget(res.Parent.StateElement))
 		}
 	}
 }
